@@ -4,7 +4,10 @@ parts of puresnmp (scratch copies of /repo/src, removed afterwards).  Every chec
 raises an alarm here demands more than its property states.
 
     tools/altcheck.py [--only ids,socket,multiwalk] [--checks C01,C05]
+    tools/altcheck.py --diffs [NAME-PREFIX,...] [--checks ...]     the larger rewrites kept as patches under alternatives/
+                                                                   (written by independent sub-agents, DESIGN.md 8.8)
 """
+import glob
 import json
 import os
 import shutil
@@ -157,9 +160,27 @@ ALTS = {"ids": alt_ids, "socket": alt_socket, "multiwalk": alt_multiwalk, "roote
         "roworder": alt_roworder, "longlen": alt_longlen}
 
 
+def diff_alternative(path):
+    def apply(src):
+        root = os.path.dirname(src)
+        r = subprocess.run(["patch", "-p1", "-s", "-i", path], cwd=root, text=True, stdout=subprocess.PIPE, stderr=subprocess.STDOUT)
+        if r.returncode:
+            raise RuntimeError("patch does not apply: %s" % r.stdout[-300:])
+    return apply
+
+
 def main():
     args = sys.argv[1:]
-    only = args[args.index("--only") + 1].split(",") if "--only" in args else list(ALTS)
+    if "--diffs" in args:
+        i = args.index("--diffs")
+        want = args[i + 1].split(",") if i + 1 < len(args) and not args[i + 1].startswith("--") else None
+        for f in sorted(glob.glob(os.path.join(VERIF, "alternatives", "*.diff"))):
+            name = os.path.basename(f)[:-5]
+            if want is None or any(name.startswith(w) for w in want):
+                ALTS[name] = diff_alternative(f)
+        only = [n for n in ALTS if os.path.exists(os.path.join(VERIF, "alternatives", n + ".diff"))]
+    else:
+        only = args[args.index("--only") + 1].split(",") if "--only" in args else [n for n in ALTS]
     ids = [c["property_id"] for c in json.load(open(os.path.join(VERIF, "MANIFEST.json")))["checks"]]
     if "--checks" in args:
         ids = args[args.index("--checks") + 1].split(",")
